@@ -634,6 +634,10 @@ let do_mgr id ins outs =
         (if lbl = Elect && k < Array.length isn && isn.(k) <> "locked" && no_unreach en' then
            let want = (match spec_best en' with BOk e | BFallback e -> Some (int_of_z e) | _ -> None) in
            let got = (try Scanf.sscanf isn.(k) "ep%d/" (fun d -> Some d) with _ -> None) in
+           (match spec_best en', (try Scanf.sscanf isn.(k) "ep%d/%d/" (fun d i -> Some (d, i)) with _ -> None) with
+            | BFallback e, Some (g, itv) when g = int_of_z e && itv <> 10 ->
+              specfails := Printf.sprintf "after op %d (election with no healthy candidate): ep%d elected with a retry interval of %d s instead of the short 10 s" k g itv :: !specfails
+            | _ -> ());
            match want, got with
            | Some w, Some g when w <> g ->
              specfails := Printf.sprintf "after op %d (election): active endpoint is ep%d, the first healthy candidate in preference order (or the first listed when none is healthy) is ep%d" k g w :: !specfails
@@ -657,6 +661,25 @@ let do_mgr id ins outs =
     else if !problems <> [] then verdict "mgr" id "diff" tag (String.concat "; " (List.rev !problems))
     else verdict "mgr" id "ok" tag ""
   | _ -> verdict "mgr" id "diff" "malformed-line" ""
+
+(* mgrhang <id> <provs> <health> => <active> <ok> <ms>   probes that end only with their context count as failed;
+   the election must still elect the first healthy candidate in preference order (every probe has its own timeout) *)
+let do_mgrhang id ins outs =
+  match ins, outs with
+  | [provt; healtht], [got; _; ms] ->
+    let zi s = z_of_int (int_of_string s) in
+    let parse_prov sp = let body = String.sub sp 1 (String.length sp - 1) in
+      PEps (if body = "" then [] else List.map zi (split_on ',' body)) in
+    let health0 = List.map (fun kv -> match split_on '=' kv with
+        | [k; v] -> (zi k, (if v = "ok" then ProbeOk else ProbeFail)) | _ -> failwith "health") (split_on ',' healtht) in
+    let en = { provs = List.map parse_prov (split_on '|' provt); health = health0; now = z_of_int 1000000000 } in
+    let want = (match spec_best en with BOk e | BFallback e -> Printf.sprintf "ep%d" (int_of_z e) | _ -> "none") in
+    let nhang = List.length (List.filter (fun kv -> match split_on '=' kv with [_; "hang"] -> true | _ -> false) (split_on ',' healtht)) in
+    let tag = Printf.sprintf "hang%d" nhang in
+    if got <> want then verdict "mgrhang" id "spec:C08,C09" tag
+        (Printf.sprintf "providers %s health %s: elected %s after %s ms, the first healthy candidate in preference order is %s" provt healtht got ms want)
+    else verdict "mgrhang" id "ok" tag ""
+  | _ -> verdict "mgrhang" id "diff" "malformed-line" ""
 
 (* ---- engine listen ----
    listen <id> <naddrs> <busy> <cancelkind> <anybusy> <ext> => <returned> <ms> <errclass> <rebind> *)
@@ -1043,6 +1066,7 @@ let () =
       | "race" :: id :: rest -> let (i, o) = split_arrow rest in do_race id i o
       | "storm" :: id :: rest -> let (i, o) = split_arrow rest in do_storm id i o
       | "listen" :: id :: rest -> let (i, o) = split_arrow rest in do_listen id i o
+      | "mgrhang" :: id :: rest -> let (i, o) = split_arrow rest in do_mgrhang id i o
       | "mgr" :: id :: rest -> let (i, o) = split_arrow rest in do_mgr id i o
       | "ttl" :: id :: rest -> let (i, o) = split_arrow rest in do_ttl id i o
       | "mdns" :: id :: rest -> let (i, o) = split_arrow rest in do_mdns id i o
